@@ -29,6 +29,8 @@ Modes_All == {"deduce", "list-all", "str-keys", "set-all", "odict-rot", "list-mi
 Modes_Two == {"deduce", "list-all"}
 Modes_One == {"deduce"}
 Modes_Conv == {"deduce", "list-all", "str-keys", "odict-rot"}
+Modes_B == {"list-all", "odict-rot"}
+Modes_Pair == {"deduce", "list-all", "set-all"}
 
 P(kind, s, n) == [kind |-> kind, s |-> s, n |-> n]
 Preds_All == {P("has", "A", 0), P("has", "E", 0), P("has", "C", 0), P("consumes", "B", 0), P("consumes", "E", 0),
